@@ -1,5 +1,64 @@
 package c01
 
-import "wzverif/internal/kit"
+import (
+	"strings"
 
-var findings = []kit.Finding[Case]{}
+	"wzverif/internal/kit"
+)
+
+var findings = []kit.Finding[Case]{
+	{
+		ID:     "KF-C01-math-surrogate-charref",
+		Clause: "C01.P2",
+		Desc: "AddMathFormula writes a formula that contains a numeric character reference to a surrogate code point (&#xD800; .. &#xDFFF;) " +
+			"as raw inner XML of m:oMath: encoding/xml, with which isWellFormedMathFragment judges the fragment, reads such a reference as U+FFFD " +
+			"without an error, but it violates XML 1.0 4.1 (WFC Legal Character) and word/document.xml is rejected by conforming parsers",
+		Trigger: func(c Case, f kit.Failure) bool {
+			if !strings.Contains(f.Detail, `"word/document.xml"`) || !strings.Contains(f.Detail, "character reference to an illegal character") {
+				return false
+			}
+			for _, o := range c.Ops {
+				if o.K == "math" && len(o.S) > 0 && hasSurrogateRef(o.S[0]) {
+					return true
+				}
+			}
+			return false
+		},
+	},
+}
+
+// hasSurrogateRef: s contains a complete numeric character reference (&#N; / &#xH;) whose value is in D800..DFFF.
+func hasSurrogateRef(s string) bool {
+	for i := 0; i+2 < len(s); i++ {
+		if s[i] != '&' || s[i+1] != '#' {
+			continue
+		}
+		j, base := i+2, 10
+		if s[j] == 'x' {
+			j, base = j+1, 16
+		}
+		v, n := 0, 0
+		for ; j < len(s); j++ {
+			d := -1
+			switch c := s[j]; {
+			case c >= '0' && c <= '9':
+				d = int(c - '0')
+			case base == 16 && c >= 'a' && c <= 'f':
+				d = int(c-'a') + 10
+			case base == 16 && c >= 'A' && c <= 'F':
+				d = int(c-'A') + 10
+			}
+			if d < 0 {
+				break
+			}
+			n++
+			if v <= 0x10FFFF {
+				v = v*base + d
+			}
+		}
+		if n > 0 && j < len(s) && s[j] == ';' && v >= 0xD800 && v <= 0xDFFF {
+			return true
+		}
+	}
+	return false
+}
